@@ -337,6 +337,62 @@ func propGeom(c Case) error {
 			undo()
 		}
 	}
+	return viewClone(c)
+}
+
+// viewClone: a part accessor's result (a view into its owner's array) outlives the
+// array's owner - the owner is given new coordinates - and is then cloned: the clone
+// and the view are two values.
+func viewClone(c Case) error {
+	l := c.G.Lay()
+	if l == geom.NoLayout {
+		return nil
+	}
+	s := l.Stride()
+	n := 4 + (c.G.NumCoords()%6)*13 // 4 .. 69 coordinates
+	mk := func(base float64) []float64 {
+		f := make([]float64, 0, n*s)
+		for i := 0; i < n; i++ {
+			for d := 0; d < s; d++ {
+				f = append(f, base+float64(i*s+d))
+			}
+		}
+		return f
+	}
+	owner := geom.NewPolygonFlat(l, mk(1000), []int{n * s})
+	view := owner.LinearRing(0)
+	other := geom.NewPolygonFlat(l, mk(5000), []int{n * s})
+	if _, err := owner.SetCoords(other.Coords()); err != nil {
+		return fmt.Errorf("SetCoords on the owner of a view: %v", err)
+	}
+	for i, v := range view.FlatCoords() {
+		if v != 1000+float64(i) {
+			return fmt.Errorf("a LinearRing(0) view of %d coordinates changed at ordinate %d when its polygon was given new coordinates: %v", n, i, v)
+		}
+	}
+	cl := view.Clone()
+	cf, vf := cl.FlatCoords(), view.FlatCoords()
+	for i := range cf {
+		cf[i] = -1
+	}
+	for i, v := range vf {
+		if v != 1000+float64(i) {
+			return fmt.Errorf("writing to the clone of a view (%d coordinates, taken before its polygon was given new coordinates) shows through the view at ordinate %d", n, i)
+		}
+	}
+	for i := range vf {
+		vf[i] = -2
+	}
+	for i, v := range cl.FlatCoords() {
+		if v != -1 {
+			return fmt.Errorf("writing to a view shows through its clone at ordinate %d", i)
+		}
+	}
+	for i, v := range owner.FlatCoords() {
+		if v != 5000+float64(i) {
+			return fmt.Errorf("the polygon's new coordinates changed at ordinate %d when its old view and the view's clone were written to", i)
+		}
+	}
 	return nil
 }
 
